@@ -255,6 +255,22 @@ func (x *env) seqHistory(h int) {
 		return
 	}
 	defer w.Close()
+	// one history in three runs on a populated root (tens to thousands of unrelated keys around the window key)
+	populated := 0
+	switch h % 6 {
+	case 1:
+		populated = 1001 + rng.Intn(1800)
+	case 4:
+		populated = 20 + rng.Intn(300)
+	}
+	if populated > 0 {
+		if err := w.Populate(populated); err != nil {
+			r.Inconclusive("populate: %v", err)
+			return
+		}
+		r.Count("histories_on_populated_root", 1)
+		r.Count("populated_keys", int64(populated))
+	}
 	s := &seqRun{x: x, w: w, saveIv: saveIv, clock: tsow.ClockNormal}
 	defer tsow.SetClock(tsow.ClockNormal)
 	s.hookWrites()
@@ -446,7 +462,7 @@ func (x *env) seqHistory(h int) {
 	}
 	r.Eval(1)
 	r.Count("seq_histories", 1)
-	r.Distinct(fmt.Sprintf("seq|%s|%s", saveIv, shape))
+	r.Distinct(fmt.Sprintf("seq|%s|pop%d|%s", saveIv, (populated+999)/1000, shape))
 	if h == 2 {
 		r.Sample(map[string]interface{}{"mode": "sequential", "save_interval": saveIv.String(), "steps": s.steps, "crash_points": s.takeovers})
 	}
@@ -868,7 +884,7 @@ func (x *env) probeFailpoints() bool {
 
 func main() {
 	r := ev.New("C02", "fault_enumeration")
-	r.Rule("sequential histories over {generate n, UpdateTSO (clock normal/+1h/-1h), SetTSO (8 kinds of targets), Reset+Initialize, hand-over, restart, fail-before/lost-ack on the window txn}, save interval in {1ms,50ms,3s}; after every op and at every committed window write a successor (clock normal and -1h) takes over from the durable state (crash point enumeration); gated: every release order of the window transactions of UpdateTSO || SetTSO [|| SetTSO], crossed with {no fault, fail-before, lost-ack} on the first or second window save in release order; free-running: 6 requesters + 1 ms updater + resets. distinct = save interval x op shape (sequential), config x schedule (gated), parameters (free)")
+	r.Rule("sequential histories over {generate n, UpdateTSO (clock normal/+1h/-1h), SetTSO (8 kinds of targets), Reset+Initialize, hand-over, restart, fail-before/lost-ack on the window txn}, save interval in {1ms,50ms,3s}, one history in three on a root populated with 20-2800 unrelated keys; after every op and at every committed window write a successor (clock normal and -1h) takes over from the durable state (crash point enumeration); gated: every release order of the window transactions of UpdateTSO || SetTSO [|| SetTSO], crossed with {no fault, fail-before, lost-ack} on the first or second window save in release order; free-running: 6 requesters + 1 ms updater + resets. distinct = save interval x op shape (sequential), config x schedule (gated), parameters (free)")
 	r.Assume("clock offsets are the repository's own failpoints fallBackSync/fallBackUpdate/systemTimeSlow enabled on a scratch copy by failpoint-ctl; the evidence key clock_failpoints_effective says whether they were live")
 	r.Assume("a crash of the serving process is emulated by taking over from a copy of the durable timestamp key under a fresh root with the real campaign + Initialize + GenerateTSO code of a new member")
 	srv.Quiet()
